@@ -126,4 +126,9 @@ MUTANTS = [
     ("c12-rename-locals", "C12", [("ragc-core/src/tuple_packing.rs", "re", r"\bmarker\b", "mk"), ("ragc-core/src/tuple_packing.rs", "re", r"\bno_bytes\b", "width"), ("ragc-core/src/tuple_packing.rs", "re", r"\btrailing_bytes\b", "tail"), ("ragc-core/src/tuple_packing.rs", "re", r"\boutput_size\b", "out_len")], "quiet", ""),
     ("c13-rename-locals", "C13", [(V, "re", r"\bno_bytes\b", "n"), (V, "re", r"\btmp\b", "rest"), (V, "re", r"\bvalue\b", "v"), (R, "re", r"\bfooter\b", "dir_buf"), (R, "re", r"\bpart_offset\b", "off0")], "quiet", ""),
     ("c14-rename-locals", "C14", [(V, "re", r"\bno_bytes\b", "n"), (V, "re", r"\btmp\b", "rest"), (V, "re", r"\bvalue\b", "v"), (R, "re", r"\bfooter\b", "dir_buf"), (R, "re", r"\bpart_offset\b", "off0")], "quiet", ""),
+    ("c13-varint-stack-buf-8", "C13", [(R, 1, '        // Write metadata as varint\n        let mut metadata_buf = Vec::new();\n        write_varint(&mut metadata_buf, metadata)?;\n        writer.write_all(&metadata_buf)?;\n        self.f_offset += metadata_buf.len() as u64;', '        let mut metadata_buf = [0u8; 8];\n        let metadata_len = write_varint(&mut metadata_buf.as_mut_slice(), metadata)?;\n        writer.write_all(&metadata_buf[..metadata_len])?;\n        self.f_offset += metadata_len as u64;')], "fire", "C13-VAR"),
+    ("c13-varint-stack-buf-9", "C13", [(R, 1, '        // Write metadata as varint\n        let mut metadata_buf = Vec::new();\n        write_varint(&mut metadata_buf, metadata)?;\n        writer.write_all(&metadata_buf)?;\n        self.f_offset += metadata_buf.len() as u64;', '        let mut metadata_buf = [0u8; 9];\n        let metadata_len = write_varint(&mut metadata_buf.as_mut_slice(), metadata)?;\n        writer.write_all(&metadata_buf[..metadata_len])?;\n        self.f_offset += metadata_len as u64;')], "quiet", ""),
+    ("c12-dispatch-as-match", "C12", [("ragc-core/src/tuple_packing.rs", 1, "    if max_elem < 4 {\n        pack_tuples::<4, 4>(bytes)\n    } else if max_elem < 6 {\n        pack_tuples::<3, 6>(bytes)\n    } else if max_elem < 16 {\n        pack_tuples::<2, 16>(bytes)\n    } else {", "    match max_elem {\n        0..=3 => pack_tuples::<4, 4>(bytes),\n        4 | 5 => pack_tuples::<3, 6>(bytes),\n        6..=15 => pack_tuples::<2, 16>(bytes),\n        _ => {"), ("ragc-core/src/tuple_packing.rs", 1, "        result.push(0x10); // Marker: no packing\n        result\n    }", "        result.push(0x10); // Marker: no packing\n        result\n    }}")], "quiet", ""),
+    ("c12-dispatch-match-4to6", "C12", [("ragc-core/src/tuple_packing.rs", 1, "    if max_elem < 4 {\n        pack_tuples::<4, 4>(bytes)\n    } else if max_elem < 6 {\n        pack_tuples::<3, 6>(bytes)\n    } else if max_elem < 16 {\n        pack_tuples::<2, 16>(bytes)\n    } else {", "    match max_elem {\n        0..=3 => pack_tuples::<4, 4>(bytes),\n        4..=6 => pack_tuples::<3, 6>(bytes),\n        7..=15 => pack_tuples::<2, 16>(bytes),\n        _ => {"), ("ragc-core/src/tuple_packing.rs", 1, "        result.push(0x10); // Marker: no packing\n        result\n    }", "        result.push(0x10); // Marker: no packing\n        result\n    }}")], "fire", "C12-TP1"),
+    ("c08-list-contigs-early-exit", "C08", [("ragc-core/src/decompressor.rs", 1, "                    .load_contig_batch(&mut self.archive, batch_id)?;\n", "                    .load_contig_batch(&mut self.archive, batch_id)?;\n                if self.collection.get_no_contigs(sample_name).is_some() {\n                    break;\n                }\n")], "fire", "C08-H6"),
 ]
